@@ -168,10 +168,15 @@ class Flow:
         return self.cfg.node_of(ast_node)
 
     # ------------------------------------------------------------------ expansion
-    def expand(self, expr, at: Optional[int] = None, depth: int = 12, _stack=None, after=False, phi=True, opaque=(), ssa=False):
+    def expand(self, expr, at: Optional[int] = None, depth: int = 12, _stack=None, after=False, phi=True, opaque=(), ssa=False, keep_for=False):
         if at is None:
             at = self.cfg.node_of(expr)
-        return _Expander(self, depth, phi, set(opaque), ssa).run(expr, at, after)
+        return _Expander(self, depth, phi, set(opaque), ssa, keep_for).run(expr, at, after)
+
+    def expand_names(self, expr, at: Optional[int] = None, depth: int = 8):
+        """Replace single-definition temporaries by their defining expression; loop variables, parameters and
+        multiply-defined names stay as written (terms comparable with guard texts)."""
+        return self.expand(expr, at, depth=depth, phi=False, keep_for=True)
 
     def expand_ssa(self, expr, at: Optional[int] = None, depth: int = 10):
         """Single-definition expansion; a name with several reaching definitions becomes
@@ -219,12 +224,13 @@ def _own_exprs(node):
 
 
 class _Expander:
-    def __init__(self, flow: Flow, depth: int, phi: bool = True, opaque=(), ssa: bool = False):
+    def __init__(self, flow: Flow, depth: int, phi: bool = True, opaque=(), ssa: bool = False, keep_for: bool = False):
         self.flow = flow
         self.depth = depth
         self.phi = phi
         self.opaque = opaque
         self.ssa = ssa
+        self.keep_for = keep_for
 
     def run(self, expr, at, after=False):
         return self._x(expr, at, self.depth, frozenset(), frozenset(), after)
@@ -241,7 +247,7 @@ class _Expander:
             defs = flow.reaching(e.id, at, after=after)
             if not defs:
                 return mark("undef", ast.Constant(e.id))
-            if not self.phi and (len(defs) > 1 or defs[0].kind in ("aug", "with", "except", "def", "import", "global")):
+            if not self.phi and (len(defs) > 1 or defs[0].kind in ("aug", "with", "except", "def", "import", "global") or (self.keep_for and defs[0].kind in ("for", "unpack"))):
                 if self.ssa and not (len(defs) == 1 and defs[0].kind in ("def", "import", "global")):
                     return ast.Name(id=e.id + "#" + "_".join(str(d.nid) for d in defs), ctx=ast.Load())
                 return ast.Name(id=e.id, ctx=ast.Load())
